@@ -3,7 +3,8 @@ from the rng handed in (seeded from VERIF_SEED)."""
 import itertools
 
 PAD_TOKENS = ['#', '##', '@', '@@', '@@@', '@@@@', '#@', '@#@', '%d', '%04d', '%01d', '%0d', '%2d', '%10d',
-              '$F', '$F4', '$F04', '$F1', '$F0', '<UDIM>', '%(UDIM)d', '####', '#####']
+              '$F', '$F4', '$F04', '$F1', '$F0', '<UDIM>', '%(UDIM)d', '####', '#####',
+              '%08d', '%09d', '%010d', '%012d', '$F08', '$F010', '$F9', '%8d', '@#', '@@#@']
 
 
 def num(rng, lo=-12, hi=40):
@@ -153,4 +154,5 @@ def extension(rng):
 
 
 def directory(rng):
-    return rng.choice(['/a/b/', '/', '', 'rel/', './', '../', '/film/shot_010/renders/', 'a/', '/a.b/c-d/', '/v2/x1/'])
+    return rng.choice(['/a/b/', '/', '', 'rel/', './', '../', '/film/shot_010/renders/', 'a/', '/a.b/c-d/', '/v2/x1/',
+                       'd1.x/', '/shots.v1.final/', 'x.5.d/', '/p.12/q/'])
